@@ -211,6 +211,8 @@ def one_message(R, L, msg):
         else:
             d = diff(T.norm_msg(L.l_message(back)), want)
             R.check(d is None, f'roundtrip-own-differs-{(d or "").split(":")[0].split(".")[1] if d and "." in d.split(":")[0] else "x"}', f'parse(serialize(m)) differs: {d}', W)
+    # (3b) a message object is edited in place and serialised again: the cell is the encoding of the object as it is now
+    edited_message(R, L, msg, lm, W)
     # (4) every other valid encoding parses to the same message
     for ip, bp in PLACEMENTS:
         if msg.get('init') is None and ip == 'ref':
@@ -235,6 +237,73 @@ def one_message(R, L, msg):
                         f'a valid encoding (init {ip}, body {bp}) parses to another message: {d}', dict(W, boc=rc.encode_boc([enc])))
     R.case(mon.fp('msg', W['boc_ref_ref']), sample=describe(msg))
     R.cover('header_kinds', msg['info']['_'])
+
+
+def edited_message(R, L, msg, lm, W):
+    """wallet code builds a message once and adjusts it (amount, flags, timestamps, addresses, body) before each send: every serialisation must encode the current field values"""
+    import copy as _copy
+    rng = R.rng
+    info = msg['info']
+    m2 = {'info': _copy.deepcopy({k: v for k, v in info.items()}), 'init': msg.get('init'), 'body': msg['body']}
+    li = lm.info
+    edits = []
+    try:
+        if info['_'] == 'int_msg_info':
+            how = rng.choice(['grams-in-place', 'value-replaced', 'flags', 'lt', 'dest'])
+            if how == 'grams-in-place':
+                g = g_grams(rng)
+                li.value.grams = g
+                m2['info']['value'] = dict(m2['info']['value'], grams=g)
+            elif how == 'value-replaced':
+                cc = g_cc(rng)
+                li.value = L.cc(cc)
+                m2['info']['value'] = cc
+            elif how == 'flags':
+                li.bounce, li.ihr_disabled = not info['bounce'], not info['ihr_disabled']
+                m2['info']['bounce'], m2['info']['ihr_disabled'] = not info['bounce'], not info['ihr_disabled']
+            elif how == 'lt':
+                li.created_lt, li.created_at = 77, 99
+                m2['info']['created_lt'], m2['info']['created_at'] = 77, 99
+            else:
+                a = g_int_addr(rng, False)
+                li.dest = L.addr(a)
+                m2['info']['dest'] = a
+        elif info['_'] == 'ext_in_msg_info':
+            how = 'import-fee'
+            f = g_grams(rng)
+            li.import_fee = f
+            m2['info']['import_fee'] = f
+        else:
+            how = 'lt'
+            li.created_lt, li.created_at = 1234567, 42
+            m2['info']['created_lt'], m2['info']['created_at'] = 1234567, 42
+        if rng.random() < 0.3:
+            nb = g_cell(rng, 16, 0)
+            lm.body = bridge.to_lib(nb)
+            m2['body'] = nb
+            how += '+body'
+    except AttributeError:
+        R.count('edit_not_applicable')
+        return
+    try:
+        T.cell_of(T.enc_message, m2, 'ref' if m2.get('init') is not None else 'inline', 'ref')
+    except rc.RefError:
+        R.count('edited_message_does_not_fit')
+        return
+    st, cell = mon.call(lm.serialize)
+    R.counters['oracle_evaluations'] += 1
+    R.count('edited_serialisations')
+    R.cover('edit_kinds', how)
+    W2 = dict(W, edit=how)
+    if st == 'exc':
+        R.violation(f'serialize-after-edit-raises-{type(cell).__name__}', f'serialize after editing the message in place ({how}) raised {cell!r}', W2)
+        return
+    try:
+        got, _ = T.dec_message(bridge.from_lib(cell))
+        d = diff(T.norm_msg(got), T.norm_msg(m2))
+    except (rc.RefError, dictref_error()) as e:
+        d = f'reference decoder rejects the cell: {e!r}'
+    R.check(d is None, f'stale-after-edit-{how.split("+")[0]}', f'after editing the message in place ({how}) the serialised cell is not the encoding of the current values: {d}', W2)
 
 
 def dictref_error():
@@ -360,6 +429,8 @@ def run(R):
     R.floor('alternative_placements', 6, 'set')
     R.floor('budget_classes', 20, 'set')
     R.floor('standalone_cases', 100)
+    R.floor('edited_serialisations', 100)
+    R.floor('edit_kinds', 5, 'set')
 
 
 def standalone(R, L, rng, quick):
